@@ -11,6 +11,7 @@ from .common import close as plain_close
 from .unitterms_common import (A, Dv, K, M, Mono, P, S, atoms_of, build, catalogue, depth, dimvec, lcm, mono, mono_dimvec, mono_scale,
                                numeric_coefficient, positive_scale, root_degree, tid)
 from .unitterms_common import mclose as close
+from .unitterms_common import RATIO_PAIRS, eval_expr, table_unit
 
 LEVEL = "other"
 F = Fraction
@@ -38,8 +39,8 @@ EXPLANATION = (
 BOUNDS = {
     "quick": "atoms {xa, xb, kxa, %, ohm-sign, angstrom-sign, micro-m}; all 196 terms of depth <= 1, 200 seeded of depth 2, 200 of depth 3 (root degree <= 36), each "
              "printed with str and repr and re-read from text and utf-8 bytes; 316 terms also written as strings in 4 surface syntaxes and compared with the "
-             "arithmetic result; 120 simplify() terms over table/percent atoms + one symbolic atom; 9 coefficients x 12 terms; 10 groups of offset / "
-             "logarithmic / temperature-difference / angle / bare-1 units (78 units); 39 spelling groups (~200 spellings)",
+             "arithmetic result; 120 simplify() terms over table/percent atoms + one symbolic atom; 138 simplify() terms over 22 same-dimension table pairs of non-integer and whole ratio (a/b, b/a, a/b*c, a**2/b, c/(a/b), a/b*ohm and compounds); 9 coefficients x 12 terms; 10 groups of offset / "
+             "logarithmic / temperature-difference / angle / bare-1 units (78 units); 42 spelling groups (~205 spellings)",
     "thorough": "same atoms; 1500 seeded terms of depth 2, 1500 of depth 3; 1396 terms in 4 surface syntaxes; 600 simplify() terms; 9 coefficients x 60 terms; special and "
                 "spelling tables as in quick; every table symbol and every SI-prefixed prefixable symbol alone and to the powers -1, 2, 1/2 over a symbolic xc (ground scales)",
 }
@@ -86,7 +87,7 @@ class _Env(dict):
         return u
 
 
-def make_env(ctx, N=1, offset_unit=False):
+def make_env(ctx, N=1, offset_unit=False, extra=()):
     D = ctx.mods["unyt"].dimensions
     reg = ctx.registry([])
     sa, sb, sc = positive_scale(ctx, "ta", N), positive_scale(ctx, "tb", N), positive_scale(ctx, "tc", N)
@@ -97,6 +98,9 @@ def make_env(ctx, N=1, offset_unit=False):
     dimvec_of = {"xa": {L_: F(1)}, "xb": {M_: F(1)}, "xc": {T_: F(1)}}
     for n, (s, d) in TAB.items():
         scale_of[n], dimvec_of[n] = s, d
+    for n in extra:
+        if n not in scale_of and n != "kxa":
+            scale_of[n], dimvec_of[n] = table_unit(n)
     if offset_unit:
         st, ot = positive_scale(ctx, "tt", 1), ctx.real("ot")
         ctx.add_row(reg, "xt", D.temperature, st, ot, prefixable=True)
@@ -148,12 +152,22 @@ def roundtrip(ctx, tag, u, reg, want=None, want_dims=None, observe=True, bare_id
 def make_rt_case(t, family="rt", idx=None):
     N = root_degree(t)
 
+    names = sorted(atoms_of(t))
+
     def h(ctx):
-        reg, env, scale_of, dimvec_of = make_env(ctx, N=N)
+        reg, env, scale_of, dimvec_of = make_env(ctx, N=N, extra=names)
         m = mono_expand(t)
         u = build(t, env, ctx.mods, reg)
         want, wd = mono_scale(m, scale_of), mono_dimvec(m, dimvec_of)
         ctx.require("built unit has the oracle's scale and dimension", And(close(u.base_value, want), dimvec(u.dimensions) == wd))
+
+        def lookup(n):
+            if n == "kxa":
+                return scale_of["xa"] * PREFIX["k"], dict(dimvec_of["xa"])
+            return table_unit(n)
+        es, ed = eval_expr(u.expr, scale_of, dimvec_of, lookup=lookup)
+        ctx.require("the expression that will be printed (numeric coefficient x remaining units) denotes the built unit's scale and dimension",
+                    And(close(es, want), ed == wd), expr=repr(u))
         roundtrip(ctx, "round trip", u, reg, want, wd)
     cid = f"C20/{family}/d{depth(t)}/{tid(t)}" if idx is None else f"C20/{family}/{idx:03d}/{tid(t)}"
     return Case(cid, h, group=family)
@@ -297,6 +311,9 @@ SPELL = [
     (False, ["J", "joule", "Joule", "kg*m**2/s**2", "N*m"]),
     (True, ["dimensionless", "(dimensionless)"]),
     (False, ["dimensionless", "1", "", "xa/xa", "xb**0"]),
+    (True, ["delta_degC", "Δ°C"]),
+    (True, ["delta_degF", "Δ°F"]),
+    (True, ["xa/delta_degC", "xa/Δ°C"]),
     (True, ["xt", "xt*1", "1*xt", "xt/1", "(xt)", " xt "]),
     (True, ["kxt", "kxt*1"]),
 ]
@@ -377,6 +394,17 @@ def cases(tier, mods):
     st = simp_terms(120 if quick else 600)
     for i, t in enumerate(st):
         out.append(make_rt_case(S(t), "rtsimp", i))
+    i = 0
+    for a, b in RATIO_PAIRS:
+        dv = table_unit(a)[1]
+        c = next(n for n, d in (("xa", {L_: F(1)}), ("xb", {M_: F(1)})) if d != dv)   # a symbolic bystander that cannot cancel
+        for t in (Dv(A(a), A(b)), Dv(A(b), A(a)), M(M(A(a), P(A(b), -1)), A(c)), Dv(P(A(a), 2), A(b)), Dv(A(c), Dv(A(a), A(b))), M(Dv(A(a), A(b)), A("Ω"))):
+            out.append(make_rt_case(S(t), "rtpair", i))
+            i += 1
+    for t in (M(Dv(A("yr"), A("day")), A("s")), Dv(M(A("mile"), A("inch")), M(A("km"), A("cm"))), P(Dv(A("mile"), A("km")), 2), P(Dv(A("inch"), A("cm")), F(1, 2)),
+              Dv(M(A("lb"), A("ft")), M(A("kg"), A("m"))), Dv(P(A("mile"), 2), M(A("km"), A("xb")))):
+        out.append(make_rt_case(S(t), "rtpair", i))
+        i += 1
     rnd = random.Random(21)
     pool = atoms + d1 + d2
     i = 0
